@@ -41,15 +41,28 @@ ELEM = {
     "float": 1, "uint8": 2, "int8": 3, "uint16": 4, "int16": 5, "int32": 6, "int64": 7,
     "string": 8, "bool": 9, "float16": 10, "double": 11, "uint32": 12, "uint64": 13,
     "complex64": 14, "complex128": 15, "bfloat16": 16,
+    "float8e4m3fn": 17, "float8e4m3fnuz": 18, "float8e5m2": 19, "float8e5m2fnuz": 20, "uint4": 21, "int4": 22,
 }
 ELEM_NAME = {v: k for k, v in ELEM.items()}
 # element types the generator uses (numpy has them natively)
 GEN_ELEMS = [1, 2, 3, 4, 5, 6, 7, 8, 9, 10, 11, 12, 13, 14, 15]
+CONST_ELEMS = set(range(1, 14))  # element types the generator makes constants of
 NP_OF = {
     1: np.float32, 2: np.uint8, 3: np.int8, 4: np.uint16, 5: np.int16, 6: np.int32, 7: np.int64,
     8: np.str_, 9: np.bool_, 10: np.float16, 11: np.float64, 12: np.uint32, 13: np.uint64,
     14: np.complex64, 15: np.complex128,
 }
+try:  # the element types numpy does not have natively (spox takes them from ml_dtypes)
+    import ml_dtypes as _mld
+
+    for _k, _n in ((16, "bfloat16"), (17, "float8_e4m3fn"), (18, "float8_e4m3fnuz"), (19, "float8_e5m2"),
+                   (20, "float8_e5m2fnuz"), (21, "uint4"), (22, "int4")):
+        if hasattr(_mld, _n):
+            NP_OF[_k] = getattr(_mld, _n)
+            GEN_ELEMS.append(_k)
+except Exception:  # noqa: BLE001
+    pass
+ELEM_OF_NP = {np.dtype(v): k for k, v in NP_OF.items() if k != 8}
 
 
 # --------------------------------------------------------------------------------------- types
@@ -361,7 +374,7 @@ def _gen_attr_value(rng, op_name, aname, a, rank, is_dtype=False):
     r = max(rank, 1)
     if t == T.INT:
         if is_dtype:
-            return {"dtype": rng.choice([1, 6, 7, 9, 11, 10, 2])}
+            return {"dtype": rng.choice([1, 6, 7, 9, 11, 10, 2] + [x for x in (16, 17, 22) if x in NP_OF and rng.random() < 0.3])}
         if aname in ("to", "dtype", "output_datatype"):
             return rng.choice([1, 6, 7, 9, 11, 10, 2])
         if aname == "axis":
@@ -430,7 +443,7 @@ def _known_scalar(rng, call, v, p):
         return
     var = call["vars"][v]
     t = var["ty"]
-    if t is None or "t" not in t or t["s"] is None or not all(isinstance(d, int) for d in t["s"]) or t["t"] in (14, 15):
+    if t is None or "t" not in t or t["s"] is None or not all(isinstance(d, int) for d in t["s"]) or t["t"] not in CONST_ELEMS:
         return
     n = int(np.prod(t["s"] or [1]))
     if n > 6:
@@ -606,7 +619,7 @@ def constify(rng, call) -> bool:
     for v in dict.fromkeys(used):
         var = call["vars"][v]
         t = var["ty"]
-        if t is None or "t" not in t or t["t"] not in NP_OF or t["t"] in (14, 15):
+        if t is None or "t" not in t or t["t"] not in CONST_ELEMS:
             ok = False
             continue
         if var["const"] is not None:
@@ -734,7 +747,7 @@ def gen_call(rng, op: Op, force: Optional[str] = None) -> dict:
                     shape = [L]
                 ty = {"t": ty["t"], "s": shape}
                 const = {"dtype": ty["t"], "shape": shape, "data": data}
-            elif ty["s"] is not None and all(isinstance(d, int) for d in ty["s"]) and rng.random() < 0.07 and int(np.prod(ty["s"] or [1])) <= 24:
+            elif ty["s"] is not None and all(isinstance(d, int) for d in ty["s"]) and rng.random() < 0.07 and int(np.prod(ty["s"] or [1])) <= 24 and ty["t"] in CONST_ELEMS:
                 const = {"dtype": ty["t"], "shape": list(ty["s"]), "data": _const_data(rng, ty["t"], ty["s"])}
         vars_.append({"ty": ty, "const": const, "tstr": param.type_str})
         return len(vars_) - 1
@@ -784,7 +797,7 @@ def gen_call(rng, op: Op, force: Optional[str] = None) -> dict:
             e = rng.choice([x for x in GEN_ELEMS if x != v["ty"]["t"]])
             v["ty"] = {"t": e, "s": v["ty"]["s"]}
             if v["const"]:
-                v["const"] = {"dtype": e, "shape": v["const"]["shape"], "data": _const_data(rng, e, v["const"]["shape"])}
+                v["const"] = {"dtype": e, "shape": v["const"]["shape"], "data": _const_data(rng, e, v["const"]["shape"])} if e in CONST_ELEMS else None
     if family == "untyped" and vars_:
         v = rng.choice(vars_)
         v["ty"] = None
@@ -1289,7 +1302,7 @@ def from_spox_type(t):
         return None
     if isinstance(t, Tensor):
         dt = np.dtype(t.dtype)
-        e = 8 if dt.kind in ("U", "S", "O") else int(onnx.helper.np_dtype_to_tensor_dtype(dt))
+        e = 8 if dt.kind in ("U", "S", "O") else ELEM_OF_NP[dt] if dt in ELEM_OF_NP else int(onnx.helper.np_dtype_to_tensor_dtype(dt))
         return {"t": e, "s": None if t.shape is None else [d if d is None or isinstance(d, str) else int(d) for d in t.shape]}
     if isinstance(t, SSequence):
         return {"seq": from_spox_type(t.elem_type)}
